@@ -2041,12 +2041,20 @@ func (a *align) Concat(c Alignment) (err error) {
 	if a.Alphabet() != c.Alphabet() {
 		return errors.New("alignments do not have the same alphabet")
 	}
+	// An empty alignment has length -1: it contributes no column
+	alen, clen := a.Length(), c.Length()
+	if alen < 0 {
+		alen = 0
+	}
+	if clen < 0 {
+		clen = 0
+	}
 	a.IterateAll(func(name string, sequence []uint8, comment string) bool {
 		_, ok := c.GetSequenceChar(name)
 		if !ok {
 			// This sequence is present in a but not in c
 			// So we append full gap sequence to a
-			err = a.appendToSequence(name, []uint8(strings.Repeat(string(GAP), c.Length())))
+			err = a.appendToSequence(name, []uint8(strings.Repeat(string(GAP), clen)))
 		}
 		return err != nil
 	})
@@ -2058,7 +2066,7 @@ func (a *align) Concat(c Alignment) (err error) {
 		if !ok {
 			// This sequence is present in c but not in a
 			// So we add it to a, with gaps only
-			err = a.AddSequence(name, strings.Repeat(string(GAP), a.Length()), comment)
+			err = a.AddSequence(name, strings.Repeat(string(GAP), alen), comment)
 		}
 		// Then we append the c sequence to a
 		err = a.appendToSequence(name, sequence)
